@@ -1380,8 +1380,16 @@ class Evaluator:
             callee = n.get("res") or n.get("fn")
             try:
                 cargs = [self.eval(tb, a, env, depth) for a in n["args"]]
-                self.collect_ifs(callee, cargs, depth + 1, follow, out, guard)
-                return
+                # the argument expressions run in the caller, before the callee's body
+                mark = len(out)
+                for a in n["args"]:
+                    self._collect(tb, a, env, depth, follow, out, guard, path)
+                try:
+                    self.collect_ifs(callee, cargs, depth + 1, follow, out, guard)
+                    return
+                except Unsupported:
+                    del out[mark:]
+                    raise
             except Unsupported:
                 pass
         for ch in tb.children(i):
